@@ -45,10 +45,17 @@ class Runner:
         """Returns normally if the case passed / was excluded / hit a known finding."""
         rec = self.rec
         t_case = time.time()
+        rec.soft = []
         try:
             signal.setitimer(signal.ITIMER_REAL, CASE_TIMEOUT)
             try:
                 nt = self.clause.oracle(case, rec)
+                for sig, msg in rec.soft:
+                    k = core.match_known(self.known, self.pid, sig)
+                    if k is None:
+                        raise Violation(sig, msg)
+                    ent = rec.known.setdefault(sig, [0, core.readable(case), msg, k['what']])
+                    ent[0] += 1
             finally:
                 signal.setitimer(signal.ITIMER_REAL, 0)
                 dt = time.time() - t_case
